@@ -32,6 +32,7 @@ import (
 
 	"github.com/go-shiori/dom"
 	"github.com/markusmobius/go-domdistiller/data"
+	"github.com/markusmobius/go-domdistiller/internal/domutil"
 	"github.com/markusmobius/go-domdistiller/internal/extractor"
 	"github.com/markusmobius/go-domdistiller/internal/pagination"
 	"golang.org/x/net/html"
@@ -207,6 +208,7 @@ func Apply(doc *html.Node, opts *Options) (*Result, error) {
 	// Convert generated html string into node
 	container := dom.CreateElement("div")
 	dom.SetInnerHTML(container, extractedHTML)
+	sanitizeOutput(container)
 
 	// Prepare result
 	result := Result{}
@@ -257,4 +259,43 @@ func Apply(doc *html.Node, opts *Options) (*Result, error) {
 	}
 
 	return &result, nil
+}
+
+// sanitizeOutput makes sure the parsed output is as inert as the sanitized pieces
+// it was generated from. Parsing the generated HTML string doesn't always give back
+// the tree that was serialized (e.g. around MathML and SVG, where the same text is
+// markup or not depending on the ancestors of its element), so scripts, styles and
+// attributes that were never part of a sanitized piece may show up at this point.
+func sanitizeOutput(container *html.Node) {
+	// Remove scripts and styles
+	for _, elem := range dom.QuerySelectorAll(container, "script,style") {
+		if elem.Parent != nil {
+			elem.Parent.RemoveChild(elem)
+		}
+	}
+
+	// Strip attributes, except the markers of the embed placeholders
+	placeholders := make(map[*html.Node][]html.Attribute)
+	for _, elem := range dom.QuerySelectorAll(container, "div.embed-placeholder") {
+		var markers []html.Attribute
+		for _, attr := range elem.Attr {
+			switch attr.Key {
+			case "class":
+				if attr.Val != "embed-placeholder" {
+					continue
+				}
+				fallthrough
+			case "data-type", "data-id":
+				if attr.Namespace == "" {
+					markers = append(markers, attr)
+				}
+			}
+		}
+		placeholders[elem] = markers
+	}
+
+	domutil.StripAttributes(container)
+	for elem, markers := range placeholders {
+		elem.Attr = markers
+	}
 }
